@@ -407,13 +407,15 @@ func c01Gen(r *Rng, tier string, i int) Sx {
 	}
 	var qs []Sx
 	for k := 0; k < 12; k++ {
-		qs = append(qs, L(A("m"), S(g.probeMethod(t)), S(g.probePath(t))))
+		kind := "m" // Router.Match, or (one in four) a request served through ServeHTTP
+		m := g.probeMethod(t)
+		if r.Chance(1, 4) && m != "" {
+			kind = "s"
+		}
+		qs = append(qs, L(A(kind), S(m), S(g.probePath(t))))
 	}
 	if r.Chance(1, 10) {
 		opts, qs = rtGvar(r, t, opts, qs)
-		for k := range qs {
-			qs[k].List[0] = A("m")
-		}
 	}
 	opts, qs = rtGroup(r, opts, qs)
 	return L(A("rt"), LS(opts), LS(t.defs), LS(qs))
